@@ -8,13 +8,22 @@ PLAN = dict(
          "octets, delete, duplicate, swap, extra nesting, empty, grow, shrink, resize to block/point-size neighbours, with "
          "enclosing lengths recomputed, also inside PEM/base64 wrappers and encapsulating OCTET/BIT STRINGs), all empty and "
          "1-3 byte inputs of a fixed list, every other artefact unmodified (type confusion) and seeded random splices; "
-         "c13.built constructs semantically valid but mis-sized payloads with the public API; c13.modes drives AEAD Open and "
-         "the XTS/HCTR decrypters with hostile lengths. One case = (entry point, artefact, mutator, range of <= 256 positions); "
+         "a der-relength mutator re-encodes every primitive element of <= 200 content bytes at every content length "
+         "0..min(2*len+8, 260) (quick: every length for elements <= 64 bytes, else every length in len/2..len+2, +-2 around "
+         "powers of two, multiples of 8 +-1 up to 137 and a stride of 5); c13.built constructs semantically valid but "
+         "mis-sized payloads with the public API; c13.modes drives AEAD Open (every length 0..200 and every cut of a genuine "
+         "ciphertext) and the XTS/HCTR decrypters in every SM4 dispatch tier; c13.sweep.tiers / c13.built.tiers repeat the "
+         "entry points that decrypt content with an SM4 mode in the noclmul and noaes tiers (thorough: avx, sse, aesni1 too). One case = (entry point, artefact, mutator, range of <= 256 positions); "
          "distinct = configuration | entry point / mutator. The hostile bytes sit in guard-page buffers (len == cap), three of "
          "four mutants against the upper page and one against the lower (thorough: every mutant in both placements).",
     jobs=both("c13.sweep", ["avx2", "purego"], shards=(8, 16), floor=2000)
          + both("c13.built", ["avx2", "purego"], shards=(2, 4), floor=50)
-         + both("c13.modes", ["avx2", "purego"], shards=(1, 2), floor=80)
+         + both("c13.modes", ["avx2", "avx", "sse", "noclmul", "noaes", "aesni1", "purego"], shards=(1, 2), floor=80)
+         # every other SM4 mode implementation tier for the entry points that decrypt content with an SM4 mode
+         + [J("c13.sweep.tiers", ["noclmul", "noaes"], "asm", shards=(2, 4), floor=500),
+            J("c13.built.tiers", ["noclmul", "noaes"], "asm", shards=(1, 2), floor=20),
+            dict(J("c13.sweep.tiers", ["avx", "sse", "aesni1"], "asm", shards=(4, 4), floor=500), thorough_only=True),
+            dict(J("c13.built.tiers", ["avx", "sse", "aesni1"], "asm", shards=(2, 2), floor=20), thorough_only=True)]
          + [dict(J("c13.sweep", ["avx2"], "race", shards=(8, 16), floor=2000), thorough_only=True),
             dict(J("c13.built", ["avx2"], "race", shards=(4, 4), floor=50), thorough_only=True),
             dict(J("c13.modes", ["avx2"], "race", shards=(1, 2), floor=80), thorough_only=True)],
